@@ -430,7 +430,22 @@ pub fn dispatch(op: &str, a: &[Arg]) -> Option<String> {
                 Ok(Err(_)) => "InvalidPassword".to_string(),
                 Ok(Ok(mut f)) => {
                     let m = meta_obs(&f);
-                    let r = std::panic::catch_unwind(std::panic::AssertUnwindSafe(|| read_loop(&mut f, bufsize)));
+                    // bufsize >= 1_000_000: read_exact(bufsize - 1_000_000, capped at the declared size), then read_to_end
+                    let r = std::panic::catch_unwind(std::panic::AssertUnwindSafe(|| {
+                        if bufsize >= 1_000_000 {
+                            let k = std::cmp::min((bufsize - 1_000_000) as u64, f.size()) as usize;
+                            let mut acc = vec![0u8; k];
+                            if let Err(e) = f.read_exact(&mut acc) {
+                                return format!("[Err {} x]", io_obs(&e));
+                            }
+                            match f.read_to_end(&mut acc) {
+                                Ok(_) => format!("[Ok {}]", ob(&acc)),
+                                Err(e) => format!("[Err {} {}]", io_obs(&e), ob(&acc)),
+                            }
+                        } else {
+                            read_loop(&mut f, bufsize)
+                        }
+                    }));
                     match r {
                         Ok(s) => format!("[Ok {} {}]", m, s),
                         Err(e) => {
